@@ -14,6 +14,7 @@ Init == /\ regs = <<>> /\ running = {} /\ owed = {} /\ lastBegin = <<>> /\ stopp
 Un(vs) == UNCHANGED vs
 K == DOMAIN regs
 \* real-clock runs (vh rt) give the time-bounded rule a slack; fake-clock bubbles are exact
+AbsJ(j) == IF j < 0 THEN -j ELSE j       \* "interval +/- jitter": the sign of the jitter does not matter
 Slack == IF "slack" \in DOMAIN Ev THEN Ev.slack ELSE 0
 Next ==
   /\ l <= Len(Trace) /\ l' = l + 1
@@ -43,7 +44,7 @@ Next ==
             /\ (~stopped => \A k \in owed : k \in running)          \* no trigger is lost
             \* periodic functions keep being invoked: the next run is due at most iv + jit after the last one began
             /\ (~stopped => \A k \in K : (regs[k].live /\ regs[k].kind \in {"per", "ptrig"} /\ k \notin running)
-                                          => Ev.t - lastBegin[k] <= regs[k].iv + regs[k].jit + Slack)
+                                          => Ev.t - lastBegin[k] <= regs[k].iv + AbsJ(regs[k].jit) + Slack)
             /\ (swPending > 0 => running # {})                        \* StopAndWait only waits for running functions
             /\ (swReturned => running = {})
 Spec == Init /\ [][Next]_vars
